@@ -178,6 +178,27 @@ func constructs(tier string) []job {
 	for _, c := range constructList {
 		js = append(js, job{Name: c.name, Class: "construct/" + c.name, Src: c.src, Cap: cap, AllK: true, NoRef: c.noref, Reason: c.reason, GoLoop: c.goloop})
 	}
+	// the other entry points of the statement: PCall (CallByParam with Protect) and Resume
+	acap := 120
+	if tier == "thorough" {
+		acap = 1000
+	}
+	for _, name := range []string{"pcall_retry", "xpcall_retry_handler_loops", "nested_protected", "coroutine_ping_pong", "coroutine_nested", "sort_comparator"} {
+		for _, c := range constructList {
+			if c.name == name {
+				for _, mode := range []string{"pcall", "resume"} {
+					js = append(js, job{Name: c.name + "/" + mode, Class: "api_" + mode + "/" + c.name, Src: c.src, Cap: acap, AllK: true, Mode: mode})
+				}
+			}
+		}
+	}
+	js = append(js, job{Name: "resume_yielding_chunk", Class: "api_resume/yielding_chunk", Mode: "resume", Cap: acap, AllK: true, Src: `
+local i = 0
+while true do i = i + 1 emit(i) local x = coroutine.yield(i) pcall(function() emit("p", x) coroutine.wrap(function() emit("w") end)() end) end`})
+	// SetContext; RemoveContext; cancel: nothing polls any more
+	js = append(js, job{Name: "remove_context", Class: "remove_context", RemoveCtx: true, Cap: 100000, Ks: []int{-1}, Src: constructList[2].src + `
+local co = coroutine.wrap(function() for i = 1, 3 do emit("co", i) coroutine.yield() end end)
+co() co() pcall(function() emit("in") error("x") end)`})
 	// calibration: straight-line chunks, one per shape
 	shapes := []string{"e", "eeee", "leael", "aaaa", "elelelaeea", "lllleeeeaaaaeeee"}
 	if tier == "thorough" {
